@@ -436,6 +436,13 @@ impl Manifest {
     }
 
     fn _apply(&mut self, output: &PathBuf, edit: Edit, allow_rollover: bool) -> Result<(), SError> {
+        // NOTE:  After an I/O error the file may or may not hold the edit that failed, while the
+        // state in memory does.  Appending further edits to it would record state (and, for lsmtk,
+        // setsums) that a reader of the file cannot reconstruct, so a poisoned manifest refuses
+        // every later edit with the error that poisoned it.
+        if let Some(err) = self.poison.as_ref() {
+            return Err(err.clone());
+        }
         let was_empty = self.strs.is_empty();
         let mut edit_str = String::new();
         Self::apply_edit(&edit, &mut self.strs, &mut self.info);
